@@ -43,7 +43,7 @@ def main():
                 if f.endswith(".json"):
                     cases.append(json.load(open(os.path.join(cdir, f))))
         if ck.tier == "quick":
-            nreg, nupd, nround, nsing, nlp, nmax, nops, mmax = 70, 40, 40, 40, 60, 14, 8, 7
+            nreg, nupd, nround, nsing, nlp, nmax, nops, mmax = 160, 60, 80, 80, 150, 16, 8, 8
         else:
             nreg, nupd, nround, nsing, nlp, nmax, nops, mmax = 500, 300, 300, 300, 600, 40, 16, 14
         for k in range(nreg):
@@ -52,6 +52,7 @@ def main():
         for k in range(nupd):
             c = lu.plan_case(ck.rng, "R", max(3, nmax // 2), nops, FAMILIES, allow_updates=True, stats=ck.hist)
             c["family"] += "+updates"
+            c["probe"] = "rational-update"
             cases.append(c)
         for k in range(nround):
             cases.append(lu.plan_rounding_case(ck.rng, max(3, nmax // 2)))
@@ -60,17 +61,14 @@ def main():
         for k in range(nlp):
             cases.append(lu.plan_lp(ck.rng, mmax, mmax + 3))
 
-    lines = []
-    for k, c in enumerate(cases):
-        lines += lu.lp_text(str(k), c) if c["kind"] == "LP" else lu.case_text(str(k), c)
-    rc, out, err = lu.run_harness(exe, lines, "C11")
-    blocks = lu.split_cases(out)
-    if rc != 0:
-        last = max([int(k) for k in blocks] or [0])
-        c = cases[last] if last < len(cases) else {}
-        nobs = len(blocks.get(str(last), []))
-        ck.violation("crash:%s" % c.get("kind", "?"), "the implementation crashed (rc=%d) in case %d after %d observations" % (rc, last, nobs),
-                     {"kind": "crash", "case": c, "stderr": err[-1500:]})
+    blocks, crashes = lu.run_all(exe, cases, "C11")
+    for (last, nobs, rc, err) in crashes:
+        c = cases[last]
+        sig = "crash:%s" % c["kind"]
+        if c.get("probe"):
+            sig = c["probe"] + ":" + sig
+        ck.violation(sig, "the implementation crashed (rc=%d) in case %d (%s) after %d observations" % (rc, last, c["family"], nobs),
+                     {"kind": "crash", "case": c, "stderr": err})
     Q = lu.Queries()
     pending = []
     ns = 0
